@@ -213,3 +213,37 @@ def run_cli_blocked(script, args, chunks, settle=1.0, timeout=180, hashseed='0',
                 except OSError:
                     pass
     return b''.join(out), b''.join(err), p.returncode, timed_out, info
+
+
+def run_cli_slow_reader(script, args, sip=512, pause=0.002, timeout=180, hashseed='0', max_out=64 << 20):
+    """The CLI with its stdout on a pipe that is read in small sips with a pause after each (a consumer that is slower than the tool): the pipe is full most of the
+    time, the tool runs with the interpreter's default buffering.  Returns (stdout, stderr, returncode, timed_out)."""
+    import time
+    s_ = repo.scratch()
+    cmd = [sys.executable, '-B', '-W', 'ignore', os.path.join(s_, script)] + list(args)
+    e = dict(os.environ, PYTHONHASHSEED=str(hashseed), PYTHONIOENCODING='utf-8')
+    e.pop('VERIF_SCRATCH', None); e.pop('PYTHONUNBUFFERED', None)
+    p = subprocess.Popen(cmd, stdin=subprocess.DEVNULL, stdout=subprocess.PIPE, stderr=subprocess.PIPE, cwd=s_, env=e)
+    err = []
+    te = threading.Thread(target=lambda: err.append(p.stderr.read()), daemon=True); te.start()
+    out, n, t0, timed_out = [], 0, time.time(), False
+    fd = p.stdout.fileno()
+    time.sleep(0.3)          # the reader starts late
+    while True:
+        if time.time() - t0 > timeout:
+            timed_out = True; p.kill(); break
+        chunk = os.read(fd, sip)
+        if not chunk:
+            break
+        n += len(chunk)
+        if n <= max_out:
+            out.append(chunk)
+        else:
+            p.kill()
+        time.sleep(pause)
+    try:
+        p.wait(timeout=30)
+    except subprocess.TimeoutExpired:
+        timed_out = True; p.kill(); p.wait()
+    te.join(10)
+    return b''.join(out), b''.join(x or b'' for x in err), p.returncode, timed_out
